@@ -326,6 +326,16 @@ impl crate::qustate::QuState for StabilizerState
         self.tableaus = vec![StabilizerTableau::new(self.nr_bits)];
         self.counts = vec![self.nr_shots];
     }
+
+    #[cfg(feature = "verif")]
+    fn verif_snapshot(&self) -> crate::verif::Snapshot
+    {
+        crate::verif::Snapshot::Stabilizer {
+            nr_bits: self.nr_bits,
+            counts: self.counts.clone(),
+            tableaus: self.tableaus.iter().map(|t| format!("{}", t)).collect()
+        }
+    }
 }
 
 #[cfg(test)]
